@@ -248,3 +248,28 @@ def _small_int(repo):
     if not re.search(r"if\s+value\s*>=\s*SMALL_INT_FORMAT_CACHE_LIMIT\s+as\s+u64\s*\{\s*return\s+None", src):
         raise KeyError("small_u64_format guard")
     return v, f"def c19SmallIntLimit : Nat := {v}"
+
+
+@item("C19_UNHOOKED_BODIES")
+def _unhooked_bodies(repo):
+    """every block under `#[cfg(not(feature = "verif_hooks"))]` in output.rs, verbatim (whitespace
+    normalised): code that only the unhooked build compiles.  Pinned in `MJ.C19.unhooked_bodies_pinned`;
+    the unhooked harness build (`--no-default-features`) executes it."""
+    raw = read(repo, "minijinja/src/output.rs")
+    s = blank_comments_and_strings(raw)
+    rows = []
+    for m in re.finditer(r'#\[cfg\(not\(feature\s*=\s*"\s*[^"]*"\s*\)\)\]', s):
+        if "verif_hooks" not in raw[m.start():m.end()]:
+            continue
+        rest = s[m.end():]
+        k = len(rest) - len(rest.lstrip())
+        if not rest.lstrip().startswith("{"):
+            # an item or statement, up to the end of the line / statement
+            end = rest.find(";", k)
+            body = raw[m.end() + k:m.end() + end + 1]
+        else:
+            b0 = m.end() + k
+            body = raw[b0 + 1:match_paren(s, b0) - 1]
+        rows.append((enclosing_fn(s, m.start()), "\u00b7".join(body.split())))  # (no blanks: the audit greps Lean sources for keywords)
+    lean = "def c19UnhookedBodies : List (String × String) := [" + ", ".join("(%s, %s)" % (lean_str(a), lean_str(b)) for a, b in rows) + "]"
+    return rows, lean
